@@ -66,6 +66,20 @@ class Ctx:
         """An oracle failure: the property is violated on the real code for `case`."""
         self.oracle_failures.append({"kind": kind, "case": case, "detail": detail})
 
+    def corpus(self):
+        """minimised past failures (and hand-picked regression inputs); they run first"""
+        d = os.path.join(VERIF, "corpus", self.prop)
+        out = []
+        if os.path.isdir(d):
+            for fn in sorted(os.listdir(d)):
+                if fn.endswith(".json"):
+                    with open(os.path.join(d, fn)) as f:
+                        j = json.load(f)
+                    j["_file"] = fn
+                    out.append(j)
+        self.cov["corpus_cases"] = len(out)
+        return out
+
     def tie_break(self, what, detail):
         """Model/impl disagreement or a proof obligation that no longer checks."""
         self.tie_breaks.append({"what": what, "detail": detail})
